@@ -3,6 +3,7 @@
 //! ALL ordered sub-selections of a 6-row query pool up to the length bound (incl. the empty batch)
 //! x 4 memory layouts x every calling form, against the model applied to each row alone.
 
+mod large;
 mod registry;
 mod sweep;
 
@@ -17,14 +18,40 @@ struct Case {
     instance: usize,
     max_len: usize,
     #[serde(default)]
-    only: Option<sweep::Only>,
+    only: Option<Value>,
+    /// "pool" (default) | "large" | "fit_layout"
+    #[serde(default)]
+    family: Option<String>,
+    #[serde(default)]
+    n: usize,
+    #[serde(default)]
+    float: Option<String>,
+    #[serde(default)]
+    all_rows_single: bool,
 }
 
 fn run_case(c: &Case) -> Result<sweep::Rep, String> {
+    let mut rep = sweep::Rep::default();
+    match c.family.as_deref() {
+        Some("large") => {
+            let reg = large::large_registry();
+            let ent = reg.iter().find(|e| e.name == c.entry).ok_or_else(|| format!("unknown large-family entry {}", c.entry))?;
+            let args = large::LArgs { n: c.n, f32_: c.float.as_deref() == Some("f32"), all_rows_single: c.all_rows_single };
+            (ent.run)(&args, &mut rep).map_err(|e| format!("fitting {} ({:?}) failed: {}", c.entry, c.float, e))?;
+            return Ok(rep);
+        }
+        Some("fit_layout") => {
+            let reg = large::fit_registry();
+            let ent = reg.iter().find(|e| e.name == c.entry).ok_or_else(|| format!("unknown fit-layout entry {}", c.entry))?;
+            (ent.run)(&mut rep).map_err(|e| format!("fit-layout entry {} failed: {}", c.entry, e))?;
+            return Ok(rep);
+        }
+        _ => {}
+    }
     let reg = registry::registry();
     let ent = reg.iter().find(|e| e.name == c.entry).ok_or_else(|| format!("unknown registry entry {}", c.entry))?;
-    let args = registry::Args { instance: c.instance, max_len: c.max_len, only: c.only.clone() };
-    let mut rep = sweep::Rep::default();
+    let only: Option<sweep::Only> = c.only.clone().and_then(|v| serde_json::from_value(v).ok());
+    let args = registry::Args { instance: c.instance, max_len: c.max_len, only };
     (ent.run)(&args, &mut rep).map_err(|e| format!("fitting {} instance {} failed: {}", c.entry, c.instance, e))?;
     Ok(rep)
 }
@@ -46,6 +73,7 @@ fn replay_value(v: &Value) -> Vec<Violation> {
     };
     // keep the violations of the recorded (batch, layout, form)
     let only = v.get("only").cloned();
+    // fit-layout artefacts name the entry with the plain predictor kind; the case is found by entry + float
     rep.viols.into_iter().filter(|x| only.is_none() || x.case.get("only") == only.as_ref()).collect()
 }
 
@@ -74,15 +102,37 @@ fn main() {
     ctx.assume("MultiTargetModel: column j bit-identical to member j's own prediction of the same batch; MultiClassModel: returned label belongs to a member whose probability (computed by that member on the same batch) is maximal, any tied member accepted; Platt: output in [0,1], |output - 1/(1+exp(A f + B))| <= 1e-6 (implementation evaluates the sigmoid in f32; A, B read from the model's Debug form, f from the inner model on the same batch), non-strictly monotone in f over all ordered pairs of pool rows");
     ctx.assume("Platt and FastICA implement PredictInplace for owned arrays only (trait bounds), so the three view forms do not exist for them; all four layouts are still realised with owned arrays");
     ctx.assume("exact-boundary instances: labels compared exactly with no indeterminate margin; a pool row counts as on the boundary only if the harness recomputes its decision value / tie from the model's public parameters and finds exact equality (rho == 0 and weighted_sum == 0; probability == threshold; equal squared distances; feature == split value)");
+    ctx.assume("large family (21 predictors, f64 and, where the type is generic, f32): one batch of n = 1025 (quick, thorough) and 4097 (thorough) distinct rows (training rows + constant-LCG offsets; p = 17 / 33 for the linear / logistic / FTRL / PCA members) in 5 layouts (standard, column-major owned, transposed view of a feature-major array, reversed-row view of a reversed copy, every second row of a larger array whose filler rows are NaN) through 10 forms (the pool-family forms plus predict_inplace on the view); oracle: every (layout, form) output == the standard-layout predict(&Array2) output (labels exact, floats within the same 2(p+2) eps S, eps = 2^-23 for f32 models), signature <kind>.layout_dependence, and rows {0, 1, 1023, 1024, n-1} (quick) / all rows (thorough) of the standard-layout output == the row predicted alone");
+    ctx.assume("fit-layout family (closed-form / deterministic fits only: OLS f64+f32, Gaussian NB, multinomial NB, decision tree f64+f32, k-means with precomputed init on 1025 rows, PLS regression, PCA up to axis sign): the TRAINING records in the same 5 layouts as owned arrays and as views; the fitted model's predictions on a 6-row query (k-means: plus centroids) must equal those of the standard-layout fit: labels exactly, floats bit-identical or within 1e-9 * S (1e-4 * S for f32; DESIGN 3.6 tolerance for a value recomputed along a different arithmetic path), signature <kind>.fit.layout_dependence; a panic whose message documents a contiguity requirement is counted, not reported");
     ctx.assume("training data and pools come from a constant LCG (no entropy source); VERIF_SEED does not influence anything explored");
 
     let reg = registry::registry();
     let mut cases: Vec<Case> = Vec::new();
     for e in &reg {
         for inst in 0..instances {
-            cases.push(Case { entry: e.name.to_string(), instance: inst, max_len, only: None });
+            cases.push(Case { entry: e.name.to_string(), instance: inst, max_len, only: None, family: None, n: 0, float: None, all_rows_single: false });
         }
     }
+    let n_pool_cases = cases.len();
+    // large-batch / layout / f32 family
+    let sizes: Vec<usize> = if ctx.quick() { vec![1025] } else { vec![1025, 4097] };
+    for e in large::large_registry() {
+        for &n in &sizes {
+            for f in ["f64", "f32"] {
+                if f == "f32" && !e.f32_too {
+                    continue;
+                }
+                cases.push(Case { entry: e.name.to_string(), instance: 0, max_len: 0, only: None, family: Some("large".into()), n, float: Some(f.into()), all_rows_single: ctx.thorough() });
+            }
+        }
+    }
+    let n_large_cases = cases.len() - n_pool_cases;
+    for e in large::fit_registry() {
+        cases.push(Case { entry: e.name.to_string(), instance: 0, max_len: 0, only: None, family: Some("fit_layout".into()), n: 0, float: None, all_rows_single: false });
+    }
+    ctx.extra("pool_family_cases", json!(n_pool_cases));
+    ctx.extra("large_family_cases", json!(n_large_cases));
+    ctx.extra("fit_layout_family_cases", json!(cases.len() - n_pool_cases - n_large_cases));
     ctx.extra("registry_entries", json!(reg.len()));
     ctx.extra("cases_enumerated", json!(cases.len()));
     ctx.extra("batches_per_case", json!(sweep::n_selections(max_len)));
@@ -124,15 +174,19 @@ fn main() {
             }
         }
         per_entry.lock().unwrap().insert(
-            format!("{}#{}", c.entry, c.instance),
+            match c.family.as_deref() {
+                Some("large") => format!("large:{}:{}:n{}", c.entry, c.float.clone().unwrap_or_default(), c.n),
+                Some(f) => format!("{}:{}", f, c.entry),
+                None => format!("{}#{}", c.entry, c.instance),
+            },
             json!({"evaluations": rep.evals, "nontrivial": rep.nontrivial, "batches": rep.batches, "float_cells": rep.float_cells,
                    "float_cells_not_bit_identical": rep.float_cells - rep.float_bit_identical, "max_dev_in_tol_units": rep.max_dev_in_tol_units,
                    "label_cells": rep.label_cells, "violations": rep.viols.len(), "single_row_reference_outputs": rep.refs_json, "wall_ms": t0.elapsed().as_millis() as u64}),
         );
-        if rep.batches as usize != sweep::n_selections(c.max_len) {
+        if c.family.is_none() && rep.batches as usize != sweep::n_selections(c.max_len) {
             ctx.capped(&format!("{}#{}: {} of {} batches run (reference unavailable for some pool row)", c.entry, c.instance, rep.batches, sweep::n_selections(c.max_len)));
         }
-        ctx.sample(|| json!({"entry": c.entry, "instance": c.instance, "max_len": c.max_len, "evaluations": rep.evals, "batches": rep.batches}));
+        ctx.sample(|| json!({"entry": c.entry, "family": c.family, "instance": c.instance, "max_len": c.max_len, "n": c.n, "float": c.float, "evaluations": rep.evals, "batches": rep.batches}));
         ctx.violations(rep.viols);
         done.fetch_add(1, std::sync::atomic::Ordering::Relaxed);
     });
